@@ -220,4 +220,42 @@ mod vk_cloned {
         assert!(d == copy, "[C13 source-untouched] the source elements are neither modified nor moved");
     }
 
+
+    // state kept by the adaptor's buffered puller between calls must not change what it forwards: three consecutive pulls on ONE
+    // buffered iterator (full chunk, short last chunk, end) and then a pull by somebody else; after every step the adaptor and the
+    // underlying iterator agree on the result, on the tickets handed out and on the recorded end, and the final pull returns
+    // (public API only)
+    // @harness name=cloned_iter_buffered_seq props=C13,C09,C01,C05 kind=bounded bound="wrapped iterator of references of length 3; three consecutive buffered(2) pulls on one buffered iterator, then one single pull (real atomics, sequential)"
+    #[kani::proof]
+    #[kani::unwind(6)]
+    fn cloned_iter_buffered_seq() {
+        let d = data();
+        let x = ConIterOfIter::new(d.iter());
+        let y = ConIterOfIter::new(d.iter()).cloned();
+        {
+            let mut bx = x.buffered_iter(2);
+            let mut by = y.buffered_iter(2);
+            let mut step = 0;
+            while step < 3 {
+                match (bx.next(), by.next()) {
+                    (Some(mut a), Some(mut b)) => {
+                        assert!(a.begin_idx == b.begin_idx && a.values.len() == b.values.len(), "[C13 C01 same-begin] same chunk begin index and boundaries as the underlying iterator");
+                        let mut k = 0;
+                        while k < 2 { match (a.values.next(), b.values.next()) { (Some(p), Some(q)) => assert!(*p == q, "[C13 clone-of] chunk elements are clones of the underlying chunk's elements"), (None, None) => {}, _ => assert!(false, "[C13 same-chunk-len] same number of chunk elements") } k += 1; }
+                    }
+                    (None, None) => {}
+                    _ => assert!(false, "[C13 C05 same-end] the adaptor reports the end exactly when the underlying iterator does"),
+                }
+                assert!(x.counter().current() == y.counter().current(), "[C13 C09 same-protocol-state] every pull through the adaptor takes a ticket exactly when the underlying pull does");
+                assert!(x.try_get_len() == y.try_get_len() && x.has_more() == y.has_more(), "[C13 C05 same-protocol-state] the end is recorded through the adaptor exactly when the underlying pull records it");
+                step += 1;
+            }
+        }
+        kani::cover!(true, "three pulls done");
+        assert!(x.next().is_none() && y.next().is_none(), "[C13 C09 C05 same-end] a later pull by anybody returns and reports the end (every earlier ticket was published: the unwinding assertions bound the wait)");
+    }
+
+    // state kept by the adaptor's buffered puller between calls must not change what it forwards: three consecutive pulls on ONE
+    // buffered iterator (full chunk, short last chunk, end) and then a pull by somebody else; after every step the adaptor and the
+    // underlying iterator agree on the result and on the state of the underlying protocol (tickets handed out, tickets published, end flag)
 }
